@@ -76,6 +76,7 @@ from pytato.reductions import (
     ReductionOperation,
     SumReductionOperation,
 )
+from pytato.scalar_expr import INT_CLASSES
 from pytato.transform import CachedMapper
 from pytato.utils import are_shape_components_equal, get_einsum_specification
 
@@ -497,8 +498,8 @@ class NumpyCodegenMapper(CachedMapper[str, Never, []]):
         lhs = self.vng("_pt_tmp")
 
         def _rec_idx(idx: IndexExpr, dim: ShapeComponent) -> ast.expr:
-            if isinstance(idx, int):
-                return _constant(idx)
+            if isinstance(idx, INT_CLASSES):
+                return _constant(int(idx))
             elif isinstance(idx, NormalizedSlice):
                 step = idx.step if idx.step != 1 else None
                 if idx.step > 0:
@@ -514,8 +515,8 @@ class NumpyCodegenMapper(CachedMapper[str, Never, []]):
                     start = (None
                              if are_shape_components_equal(dim-1, idx.start)
                              else idx.start)
-                    if (isinstance(start, int) and start < 0
-                            and isinstance(dim, int)):
+                    if (isinstance(start, INT_CLASSES) and start < 0
+                            and isinstance(dim, INT_CLASSES)):
                         # A normalized start of -1 means "before the first
                         # element" (an empty slice), whereas numpy reads a
                         # literal -1 as "the last element".
@@ -534,14 +535,14 @@ class NumpyCodegenMapper(CachedMapper[str, Never, []]):
 
                 kwargs: SliceKwargs = {}
                 if step is not None:
-                    assert isinstance(step, int)
-                    kwargs["step"] = _constant(step)
+                    assert isinstance(step, INT_CLASSES)
+                    kwargs["step"] = _constant(int(step))
                 if start is not None:
-                    assert isinstance(start, int)
-                    kwargs["lower"] = _constant(start)
+                    assert isinstance(start, INT_CLASSES)
+                    kwargs["lower"] = _constant(int(start))
                 if stop is not None:
-                    assert isinstance(stop, int)
-                    kwargs["upper"] = _constant(stop)
+                    assert isinstance(stop, INT_CLASSES)
+                    kwargs["upper"] = _constant(int(stop))
 
                 return ast.Slice(**kwargs)
             else:
